@@ -255,6 +255,50 @@ def rule_p2(ctx, F):
             ctx.bad("P2", "ts_subtree_new_error_node", "ts_subtree_new_error_node no longer builds its node through ts_subtree_new_node(ts_builtin_sym_error, …)")
 
 
+def rule_tiling(ctx, F):
+    """T1: a parent's extent tiles its children and its cached counts count them: the first child
+    gives padding and size, every later child adds its *total* size; every iteration accounts for the
+    child's size and visible descendants; a child is counted as visible/named only if it (or its alias)
+    is, and a hidden child passes on its own counts."""
+    fn = ctx.need_fn(F, "ts_subtree_summarize_children", "T1")
+    if not fn:
+        return
+    from C06 import incs
+    pad = [pt for pt, n in find(fn, "self.ptr->padding = ts_subtree_padding(child)")]
+    first = [pt for pt, n in find(fn, "self.ptr->size = ts_subtree_size(child)")]
+    rest = [pt for pt, n in find(fn, "self.ptr->size = length_add(self.ptr->size, ts_subtree_total_size(child))")]
+    if not (pad and first and rest):
+        ctx.bad("T1", "summarize:extent-stores", "ts_subtree_summarize_children no longer has the three extent stores (padding/size from the first child, size += total size of the others)")
+        return
+    ctx.gate("T1", fn, pad + first, [("padding and initial size come from the first child only", "i == 0", True)], accept_desc="taking the first child's extent")
+    ctx.gate("T1", fn, rest, [("later children add their total size (padding included)", "i == 0", False)], accept_desc="adding a later child's extent")
+    head = [pt for pt, e in fn.points() if e.get("k") == "decl" and e.get("name") == fn.cur("child") and (e.get("t") or "") == "Subtree"]
+    if head:
+        ctx.after("T1", "summarize:every-child-adds-its-extent", fn, head, first + rest, "every child contributes its extent to the parent's size", retrigger_is_stop=True)
+        vd = [pt for pt, n in find(fn, "self.ptr->visible_descendant_count += ts_subtree_visible_descendant_count(child)")]
+        ctx.after("T1", "summarize:every-child-adds-its-visible-descendants", fn, head, vd, "every child contributes its visible descendants", retrigger_is_stop=True)
+        ec = [pt for pt, n in find(fn, "self.ptr->error_cost += _")]
+        ctx.after("T1", "summarize:every-child-adds-its-error-cost", fn, head, ec, "every child contributes its error cost", retrigger_is_stop=True)
+    vis = incs(fn, "self.ptr->visible_child_count")
+    nam = incs(fn, "self.ptr->named_child_count")
+    plain_v = [pt for pt in vis if not any(pt == p for p, n in find(fn, "self.ptr->visible_child_count += child.ptr->visible_child_count"))]
+    plain_n = [pt for pt in nam if not any(pt == p for p, n in find(fn, "self.ptr->named_child_count += child.ptr->named_child_count"))]
+    inh = [p for p, n in find(fn, "self.ptr->visible_child_count += child.ptr->visible_child_count")] + [p for p, n in find(fn, "self.ptr->named_child_count += child.ptr->named_child_count")]
+    ctx.floor("visible/named child count increments", len(plain_v) + len(plain_n), 4)
+    ctx.gate("T1", fn, plain_v, [("a child counts as visible only if its alias or it itself is", [("alias_sequence[structural_index] != 0", True), ("ts_subtree_visible(child)", True)])], accept_desc="counting a visible child")
+    ctx.gate("T1", fn, plain_n, [("a child counts as named only if its alias or it itself is named", [("ts_language_symbol_metadata(language, alias_sequence[structural_index]).named", True), ("ts_subtree_named(child)", True)])],
+             accept_desc="counting a named child")
+    if len(inh) == 2:
+        ctx.gate("T1", fn, inh, [("a hidden child passes on its own counts", "ts_subtree_visible(child)", False), ("…only if it has children", "grandchild_count > 0", True)], accept_desc="inheriting a hidden child's counts")
+    else:
+        ctx.bad("T1", "summarize:hidden-child-counts", "ts_subtree_summarize_children no longer inherits both counts of a hidden child (found %d stores)" % len(inh))
+    la = [pt for pt, n in find(fn, "self.ptr->lookahead_bytes = lookahead_end_byte - self.ptr->size.bytes - self.ptr->padding.bytes")]
+    if la:
+        ctx.ok("T1", "summarize:lookahead-relative-to-own-end", "lookahead_bytes is measured from the node's own end")
+    else:
+        ctx.bad("T1", "summarize:lookahead-relative-to-own-end", "lookahead_bytes is no longer lookahead_end_byte - size - padding")
+
+
 MERGE_KEYS = ["state", "position.bytes", "error_cost"]
 
 
@@ -301,6 +345,7 @@ def run(ctx):
         rule_p1(ctx, F)
         rule_p2(ctx, F)
         rule_merge(ctx, F)
+        rule_tiling(ctx, F)
         import C06
         sav = C06.ALIAS_READERS
         C06.ALIAS_READERS = [a for a in sav if a[0] == "ts_subtree_summarize_children"]
